@@ -32,18 +32,20 @@ type Event struct {
 
 // Scenario = peers with behaviours + script of honest-side events.
 type Scenario struct {
-	Name       string
-	Len        int // initial honest chain length
-	Peers      []Behaviour
-	Addrs      []string // optional explicit addresses
-	Script     []Event
-	Deadline   time.Duration // budget for the final convergence wait
-	Checkpts   []int         // heights of block checkpoints set in the chain parameters
-	Parallel   bool          // dial all peers at once instead of in listed order
-	Barrier    bool          // peers hold their first headers reply until every listed peer has connected
-	ManualGate bool          // only peer 0 is dialled at the start; the scenario opens the other gates itself (OpenGate)
-	NoRedial   bool          // every peer can be dialled once: a peer the client dropped does not come back, nobody new joins
-	HoldCF     bool          // peer i+1 is dialled only after peer i has been asked for cfheaders (peer i alone at first)
+	Name        string
+	Len         int // initial honest chain length
+	Peers       []Behaviour
+	Addrs       []string // optional explicit addresses
+	Script      []Event
+	Deadline    time.Duration // budget for the final convergence wait
+	Checkpts    []int         // heights of block checkpoints set in the chain parameters
+	Parallel    bool          // dial all peers at once instead of in listed order
+	Barrier     bool          // peers hold their first headers reply until every listed peer has connected
+	HoldCurrent bool          // peer i+1 is dialled only once the client reports IsCurrent() (it has caught up with peer i)
+	TipAge      time.Duration // when set: the honest tip's timestamp is this far in the past when the scenario is built
+	ManualGate  bool          // only peer 0 is dialled at the start; the scenario opens the other gates itself (OpenGate)
+	NoRedial    bool          // every peer can be dialled once: a peer the client dropped does not come back, nobody new joins
+	HoldCF      bool          // peer i+1 is dialled only after peer i has been asked for cfheaders (peer i alone at first)
 }
 
 // Sim is one running scenario.
@@ -108,6 +110,10 @@ func New(sc Scenario, rng *rand.Rand, out func(op, obs string)) (*Sim, error) {
 	Setup()
 	s := &Sim{Sc: sc, rng: rng, out: out, byAddr: map[string]*Peer{}, allCon: make(chan struct{})}
 	s.W = NewWorld(rng)
+	if sc.TipAge > 0 {
+		// blocks are one second apart: block 1 is Len-1 seconds older than the tip
+		s.W.FirstBlockTime = time.Now().Add(-sc.TipAge - time.Duration(sc.Len-1)*time.Second)
+	}
 	tip := s.W.Extend(s.W.Genesis, sc.Len, "t")
 	s.W.SetHonest(tip)
 	for i, b := range sc.Peers {
@@ -132,6 +138,9 @@ func New(sc Scenario, rng *rand.Rand, out func(op, obs string)) (*Sim, error) {
 		}
 		p := &Peer{Idx: i, Addr: addr, B: b, w: s.W, Release: make(chan struct{})}
 		switch b.Kind {
+		case "lagging":
+			// serves the honest chain of the start minus its last b.H blocks, and nothing newer
+			p.own = tip.Ancestor(tip.Height - int32(b.H))
 		case "lighterFork":
 			// a valid branch leaving the honest chain b.H blocks below its tip, b.N blocks long
 			fork := tip.Ancestor(tip.Height - int32(b.H))
@@ -260,6 +269,7 @@ func (s *Sim) Start() error {
 			dl := time.Now().Add(3 * time.Second)
 			for time.Now().Before(dl) && atomic.LoadInt32(&s.closed) == 0 {
 				if atomic.LoadInt32(&p.Sessions) > 0 && (!p.live() || s.connectedTo(p)) &&
+					(!s.Sc.HoldCurrent || i == len(s.Peers)-1 || s.CS.IsCurrent()) &&
 					(!s.Sc.HoldCF || i == len(s.Peers)-1 || atomic.LoadInt32(&p.GotGetCFHeaders) > 0) {
 					break
 				}
@@ -471,6 +481,21 @@ func (s *Sim) Run() {
 			s.announce(true)
 		case "sleep":
 			s.waitFor(time.Duration(ev.A)*time.Millisecond, func(Obs) bool { return false })
+		case "drop":
+			// peer ev.A closes its connection (and, with NoRedial, does not come back)
+			s.Peers[ev.A].Drop()
+			gone := s.waitFor(2*time.Second, func(o Obs) bool { return !contains(o.Conn, ev.A) })
+			s.out(fmt.Sprintf("drop %d", ev.A), map[bool]string{true: "gone", false: "still-listed"}[gone])
+		case "age":
+			// wait until the client's block tip is older than 24 hours
+			for k := 0; k < 3000; k++ {
+				hdr, _, err := s.CS.BlockHeaders.ChainTip()
+				if err != nil || time.Since(hdr.Timestamp) > 24*time.Hour+time.Second {
+					break
+				}
+				s.waitFor(100*time.Millisecond, func(Obs) bool { return false })
+			}
+			s.out("age", fmt.Sprintf("current %d", map[bool]int{true: 1, false: 0}[s.CS.IsCurrent()]))
 		case "cfilter":
 			s.out(fmt.Sprintf("cfilter %d", ev.A), s.getCFilter(int32(ev.A)))
 		}
